@@ -148,6 +148,27 @@ FINAL_RE = re.compile(r"(\d+) states generated, (\d+) distinct states found, (\d
 DEPTH_RE = re.compile(r"The depth of the complete state graph search is (\d+)")
 
 
+def tlaps_proof(module, timeout=900):
+    """Check spec/proofs/<module>.tla with the TLA+ proof system (model side only: independent of /repo).
+    The proved module EXTENDS the spec that TLC checks, so the theorem is about the very same actions."""
+    d = os.path.join(WORK, "tlaps_%s_%d" % (module, os.getpid()))
+    shutil.rmtree(d, ignore_errors=True)
+    os.makedirs(d, exist_ok=True)
+    shutil.copy(os.path.join(SPEC, "proofs", module + ".tla"), d)
+    for f in os.listdir(SPEC):
+        if f.endswith(".tla"):
+            shutil.copy(os.path.join(SPEC, f), d)
+    t0 = time.time()
+    p = run(["timeout", str(timeout), "tlapm", "--threads", "8", "-I", "/opt/veriftools/tlapm/lib/tlapm/stdlib", module + ".tla"], cwd=d)
+    wall = time.time() - t0
+    out = (p.stdout or "") + (getattr(p, "stderr", "") or "")
+    shutil.rmtree(d, ignore_errors=True)
+    m = re.search(r"All (\d+) obligations proved", out)
+    if not m:
+        raise ToolError("tlapm did not prove %s: %s" % (module, out[-1500:]))
+    return {"module": module, "obligations": int(m.group(1)), "wall_s": round(wall, 1)}
+
+
 def tlc_mc(module, cfg, workers=8, timeout=900, xmx="8g", env_extra=None, simulate=None, tag=None,
            extra_args=(), allow_timeout=False):
     """Model-check spec/<module>.tla with spec/<cfg>. Returns dict with counts, printed tuples,
